@@ -200,16 +200,19 @@ func runC08(r *vk.Run) {
 		inv := genMergeInventory(rng, rng.Range(1, 7), 8)
 		ordered := true
 		var all []int64
-		tsOf := map[string]int64{}
-		owner := map[string]string{}
+		// records may be identical across replicas and repeated inside one container: count them
+		type recKey struct {
+			cid, line string
+			ts        int64
+		}
+		written := map[recKey]int{}
 		for _, cs := range inv {
 			for j, f := range cs.Frames {
 				if j > 0 && f.TS < cs.Frames[j-1].TS {
 					ordered = false
 				}
 				all = append(all, f.TS)
-				tsOf[f.Body] = f.TS
-				owner[f.Body] = cs.ID
+				written[recKey{cs.ID, f.Body, f.TS}]++
 			}
 		}
 		sort.Slice(all, func(i, j int) bool { return all[i] < all[j] })
@@ -239,7 +242,7 @@ func runC08(r *vk.Run) {
 				wantN = L
 			}
 			seenSets := map[string]bool{}
-			seenLine := map[string]bool{}
+			returned := map[recKey]int{}
 			var gotTS []int64
 			for _, st := range res.Streams {
 				k := labelKey(st.Labels)
@@ -249,18 +252,10 @@ func runC08(r *vk.Run) {
 				}
 				seenSets[k] = true
 				for i, e := range st.Entries {
-					ts, ok := tsOf[e.Line]
-					if !ok || ts != e.TS {
-						c.Fail("", fmt.Sprintf("limit %d: entry %q ts=%d was never written so", L, e.Line, e.TS), det)
-						return
-					}
-					if seenLine[e.Line] {
-						c.Fail("", fmt.Sprintf("limit %d: entry %q returned twice", L, e.Line), det)
-						return
-					}
-					seenLine[e.Line] = true
-					if st.Labels["container_id"] != owner[e.Line] {
-						c.Fail("", fmt.Sprintf("limit %d: entry %q of container %s sits in stream of %s", L, e.Line, owner[e.Line], st.Labels["container_id"]), det)
+					k := recKey{st.Labels["container_id"], e.Line, e.TS}
+					returned[k]++
+					if returned[k] > written[k] {
+						c.Fail("", fmt.Sprintf("limit %d: entry (%d, %q) appears %d times in the stream of container %q, which wrote it %d times", L, e.TS, e.Line, returned[k], k.cid, written[k]), det)
 						return
 					}
 					if i > 0 && st.Entries[i-1].TS > e.TS {
